@@ -2000,15 +2000,22 @@ func _fontFeatureSettings(tokens []Token) (pr.FontFeatures, bool) {
 			tokens, token = tokens[0:1], tokens[1]
 			switch tt := token.(type) {
 			case pa.Ident:
-				if utils.AsciiLower(string(tt.Value)) == "on" {
+				switch utils.AsciiLower(string(tt.Value)) {
+				case "on":
 					value = 1
-				} else {
+				case "off":
 					value = 0
+				default:
+					return pr.FontFeature{}
 				}
 			case pa.Number:
 				if tt.IsInt() && tt.Int() >= 0 {
 					value = uint32(tt.Int())
+				} else {
+					return pr.FontFeature{}
 				}
+			default:
+				return pr.FontFeature{}
 			}
 		} else if len(tokens) == 1 {
 			value = 1
